@@ -64,6 +64,11 @@ thread_local! {
     static HARNESS_FAULT: RefCell<Option<String>> = RefCell::new(None);
 }
 
+/// true inside a sanitizer leg (Miri / ASan): monitors shrink their inputs, an interpreter is ~10^3-10^4 times slower
+pub fn legs_mode() -> bool {
+    std::env::var("XVM_STREAM_CAP").is_ok()
+}
+
 pub fn install_panic_hook() {
     panic::set_hook(Box::new(|info| {
         let msg = if let Some(s) = info.payload().downcast_ref::<&str>() {
